@@ -777,7 +777,40 @@ func scenIdentity(e *engineA) error {
 				continue
 			}
 			e.rc.emit(&ev.Rec{K: "fault", Op: "restart", Cid: cl.cid, Nid: id})
+			// a duplicate start: a second instance is created while this one
+			// serves (New is documented to answer ErrLockExists) ...
+			early, errEarly := raft.New(cl.opt, newRecFSM(e.rc, n.dir+".early"), n.dir)
+			{
+				rec := &ev.Rec{K: "exclusive", Op: "new-while-serving"}
+				if errEarly != nil {
+					rec.Err = errEarly.Error()
+				}
+				e.rc.emitNode(n.dir, rec)
+			}
+			if errEarly == nil {
+				e.sleepHB(1, 2) // the serving instance goes on; what the other one read is history
+			}
 			if n.shutdown(30 * time.Second) {
+				if errEarly == nil {
+					// ... and whoever holds it calls Serve once the lock is gone
+					lis := e.net.Listen(fmt.Sprintf("early%d:1", e.cl.nextOp()), n.label+"early")
+					done := make(chan error, 1)
+					go func() { done <- early.Serve(lis) }()
+					rec := &ev.Rec{K: "exclusive", Op: "early-instance-served-after-stop"}
+					select {
+					case err := <-done:
+						if err != nil {
+							rec.Err = err.Error()
+						}
+					case <-time.After(2 * e.hb()):
+						rec.Note = "the instance created while the other one served is serving now, on the state it read then"
+						ctx, cancel := context.WithTimeout(context.Background(), 10*time.Second)
+						_ = early.Shutdown(ctx)
+						cancel()
+						<-done
+					}
+					e.rc.emitNode(n.dir, rec)
+				}
 				e.exclusiveIdle(cl, n)
 				if _, err := cl.start(id, n.dir); err != nil {
 					e.rc.emit(&ev.Rec{K: "restart-failed", Cid: cl.cid, Nid: id, Err: err.Error()})
